@@ -46,11 +46,16 @@ func NewNode(t thrift.Type, src []byte) Node {
 		l: (len(src)),
 		v: rt.GetBytePtr(src),
 	}
+	// the header may be truncated: leave the types zero (STOP) then, reading the node reports the error
 	if t == thrift.LIST || t == thrift.SET {
-		ret.et = *(*thrift.Type)(unsafe.Pointer(ret.v))
+		if ret.l >= 1 {
+			ret.et = *(*thrift.Type)(unsafe.Pointer(ret.v))
+		}
 	} else if t == thrift.MAP {
-		ret.kt = *(*thrift.Type)(unsafe.Pointer(ret.v))
-		ret.et = *(*thrift.Type)(rt.AddPtr(ret.v, uintptr(1)))
+		if ret.l >= 2 {
+			ret.kt = *(*thrift.Type)(unsafe.Pointer(ret.v))
+			ret.et = *(*thrift.Type)(rt.AddPtr(ret.v, uintptr(1)))
+		}
 	}
 	return ret
 }
@@ -61,11 +66,16 @@ func (self Node) slice(s int, e int, t thrift.Type) Node {
 		l: (e - s),
 		v: rt.AddPtr(self.v, uintptr(s)),
 	}
+	// the header may be truncated: leave the types zero (STOP) then, reading the node reports the error
 	if t == thrift.LIST || t == thrift.SET {
-		ret.et = *(*thrift.Type)(unsafe.Pointer(ret.v))
+		if ret.l >= 1 {
+			ret.et = *(*thrift.Type)(unsafe.Pointer(ret.v))
+		}
 	} else if t == thrift.MAP {
-		ret.kt = *(*thrift.Type)(unsafe.Pointer(ret.v))
-		ret.et = *(*thrift.Type)(rt.AddPtr(ret.v, uintptr(1)))
+		if ret.l >= 2 {
+			ret.kt = *(*thrift.Type)(unsafe.Pointer(ret.v))
+			ret.et = *(*thrift.Type)(rt.AddPtr(ret.v, uintptr(1)))
+		}
 	}
 	return ret
 }
